@@ -33,7 +33,8 @@ Tc(id, beh, code, dur, exp, out, stream, expect, t, det, skip) ==
 \*  fmt   : "md" | "cram"
 \*  tfm   : total_timeout in the front-matter in ticks (None = absent, 0 = unlimited)
 \*  skipdef : defaults.skip_document_code in the front-matter (None = absent)
-\*  fault : "no" | "unreadable" | "unparsable"
+\*  fault : "no" | "unreadable" | "unparsable" | "missing" (the given path does not exist)
+\*          | "nomatch" (the given file's name matches neither document pattern: it is silently not a test document)
 Doc(fmt, tfm, skipdef, fault, tests) ==
     [fmt |-> fmt, tfm |-> tfm, skipdef |-> skipdef, fault |-> fault, tests |-> tests]
 
@@ -50,9 +51,11 @@ Run(docs, tcli, pre, app, via, noshell) ==
 \*           format defaults); their syntax (front-matter, inline configuration) stays Markdown
 Script(s, i) == s.docs[i].fmt = "cram" \/ s.compat
 
+FaultKinds == {"unreadable", "unparsable", "missing"}      \* scrut cannot do its job: exit status 1, nothing runs
 HasShared(s, i) == s.via = "cli" \/ (i = 1 /\ s.docs[1].fmt = "md")   \* front-matter exists only in Markdown
-Assembled(s, i) == (IF HasShared(s, i) THEN s.pre ELSE <<>>) \o s.docs[i].tests
-                     \o (IF HasShared(s, i) THEN s.app ELSE <<>>)
+Assembled(s, i) == IF s.docs[i].fault = "nomatch" THEN <<>>
+                   ELSE (IF HasShared(s, i) THEN s.pre ELSE <<>>) \o s.docs[i].tests
+                        \o (IF HasShared(s, i) THEN s.app ELSE <<>>)
 
 \* effective document limit in ticks (None = unlimited): command line beats front-matter beats default
 TotalLimit(s, i) ==
@@ -97,7 +100,7 @@ IsPrefixOf(a, b) == Len(a) <= Len(b) /\ \A x \in 1..Len(a) : a[x] = b[x]
 SkipsAt(s, i, x)   == LET tc == Assembled(s, i)[x] IN ~tc.det /\ tc.beh \in {"exit", "exitscript"} /\ tc.code = SkipCode(s, i, tc)
 DiesAt(s, i, x)    == LET tc == Assembled(s, i)[x] IN ~tc.det /\ tc.beh = "signal"
 HasFault(s) == \/ s.noshell
-               \/ (\E i \in 1..Len(s.docs) : s.docs[i].fault # "no")
+               \/ (\E i \in 1..Len(s.docs) : s.docs[i].fault \in FaultKinds)
                \/ (\E j \in 1..Len(s.docs) : Script(s, j) /\ \E x \in 1..Len(Assembled(s, j)) :
                        Assembled(s, j)[x].t # None \/ Assembled(s, j)[x].det)
                \/ (\E j \in 1..Len(s.docs) : InconsistentSkip(s, j))
